@@ -82,6 +82,10 @@ fn native_misc_registry0() -> Vec<(&'static str, fn(&mut crate::src::EnumSrc))> 
         ("nschema_library2", (|s: &mut crate::src::EnumSrc| crate::native_misc::schema_library2(s)) as fn(&mut crate::src::EnumSrc)),
         // n(nevo_enum256, "C03,C02", "derive(Savefile) discriminant width rule (get_enum_size) with a versioned 256th variant; derive Deserialize / WithSchema for enums; Deserializer::load_impl", "3 variants x with/without schema");
         ("nevo_enum256", (|s: &mut crate::src::EnumSrc| crate::native_misc::evolve_enum256(s)) as fn(&mut crate::src::EnumSrc)),
+        // n(nschema_E257, "C12", "derive WithSchema for an enum with 257 variants (discriminant_size 2); derive Serialize", "variants with index < 256");
+        ("nschema_E257", (|s: &mut crate::src::EnumSrc| crate::native_misc::schema_e257::<_, false>(s)) as fn(&mut crate::src::EnumSrc)),
+        // n(nschema_E257_high, "C12", "derive WithSchema for an enum with 257 variants: Variant::discriminant is a u8", "the variant with index 256");
+        ("nschema_E257_high", (|s: &mut crate::src::EnumSrc| crate::native_misc::schema_e257::<_, true>(s)) as fn(&mut crate::src::EnumSrc)),
         // n(pairs_diff, "C05,C13,C15", "diff_schema; diff_enum; diff_fields; diff_primitive", "pairs of one-variant enums with <= 2 primitive fields; discriminants/widths from small domains");
         ("pairs_diff", (|s: &mut crate::src::EnumSrc| crate::schemapairs::diff_pairs(s)) as fn(&mut crate::src::EnumSrc)),
         // n(pairs_layout, "C09,C11", "Schema::layout_compatible; SchemaEnum/Variant/Field::layout_compatible", "pairs of one-variant enums with <= 2 primitive fields, two offsets");
